@@ -12,25 +12,25 @@ def prop(pid, technique, text, note, design, engine="adfmc", implemented=True):
 ORACLE = "Trusted: the reference model in adfmc/src/oracle.rs (truth tables, brute force over all 2^n / 3^n interpretations) and the Rust compiler; bound: the named finite families (<= 5 statements), nothing is sampled."
 
 prop("C01", "exhaustive enumeration of complete ADF families on the real back-ends vs. brute-force least fixpoint",
-     "Every ADF of the complete families A(1), A(2) (all writer tuples), F(3,2), F(4,1), all formulas of depth <= 2 and one residue class of A(3) (thorough: all 2^24 ADFs of A(3), F(5,1), F(4,2), formulas with <= 7 nodes) is built on native, biodivine, hybrid(+/- pre-grounding) and bridged back-ends; each grounded vector is compared with the least fixpoint computed from the definition. Small-scope exhaustive: no ADF inside the bound can violate the property unnoticed.",
+     "Every ADF of the complete families A(1), A(2) (all writer tuples), F(3,2), F(4,1), their presented variants (ac facts permuted against the statements, labels both sortings reorder, sorting applied), all formulas of depth <= 2, one residue class of A(3) and of F(4,2), and residue classes of the ring families R(6), R(7), R(8) (6-8 statements, oracle from the formulas by brute force over all 3^n interpretations) (thorough: all 2^24 ADFs of A(3), F(5,1), F(4,2), all of R(6), formulas with <= 7 nodes) is built on native, biodivine, hybrid(+/- pre-grounding) and bridged back-ends; each grounded vector is compared with the least fixpoint computed from the definition; plus the CLI flag of the semantics x 3 modes x 3 sortings on label-sensitive files. Small-scope exhaustive: no ADF inside the bound can violate the property unnoticed.",
      ORACLE, "DESIGN.md 4 C01")
 prop("C02", "exhaustive enumeration of complete ADF families; complete() multiset vs. all 3^n fixpoints of Gamma",
-     "Same families; the list returned by complete() on every back-end is compared as a multiset with {v | Gamma(v)=v} enumerated over all 3^n interpretations; the first element must be the grounded interpretation.",
+     "Same families and CLI clause (--com); the list returned by complete() on every back-end is compared as a multiset with {v | Gamma(v)=v} enumerated over all 3^n interpretations; the first element must be the grounded interpretation.",
      ORACLE, "DESIGN.md 4 C02")
 prop("C03", "exhaustive enumeration of complete ADF families; every stable variant vs. reduct-based definition",
-     "Same families; plain, pre-filter and both rewriting variants on native, biodivine, hybrid(+/-) and bridged objects are each compared as multisets with the stable models of the definition (reduct + least fixpoint), never with each other.",
+     "Same families and CLI clause (--stm, --stmpre, --stmrew, --stmrew2); plain, pre-filter and both rewriting variants on native, biodivine, hybrid(+/-) and bridged objects are each compared as multisets with the stable models of the definition (reduct + least fixpoint), never with each other.",
      ORACLE, "DESIGN.md 4 C03")
 prop("C04", "exhaustive enumeration of complete ADF families; counting-guided searches vs. definition",
-     "Same families (thorough adds all 24M ADFs of F(4,2), where the search branches three deep); heuristics a and b on native, hybrid(+/-) and bridged objects, also b after a on one object; verdict kinds missing / invented / duplicate.",
+     "Same families and CLI clause (--stmca, --stmcb) (thorough adds all 24M ADFs of F(4,2), where the search branches three deep); heuristics a and b on native, hybrid(+/-) and bridged objects, also b after a on one object; verdict kinds missing / invented / duplicate.",
      ORACLE, "DESIGN.md 4 C04")
 
 STORE = "Trusted: truth tables read from the public node table by an independent walker (adfmc/src/bddx.rs); bound: <= 3-4 variables and the stated depth; states with equal node tables are merged (justified by the memo invariant checked on every transition in C11)."
 
 prop("C05", "stateless exploration of all heuristic choice sequences (deviation-bounded DFS with replay) of the real nogood search + exhaustive families for built-ins + RNG outcome-class cover for Rand",
-     "The heuristic is the environment of the search and is explored like a scheduler: a scripted Heuristic::Custom offers (undecided statement x {T,F}); every choice sequence (all of A(1), A(2), F(3,1); all with <= 2 deviations on F(3,2) and F(4,1); thorough: all of F(3,2) and a residue class of A(3), <= 3 deviations on F(4,1), <= 1 on A(3)) is executed on a fresh object in both modes and compared with the definition; termination through the cfg(adf_obdd_verif) step budget; channel closed after return. Built-in heuristics through all three entry points on native and hybrid objects over complete families; Rand with the first seed of every RNG outcome-class prefix.",
+     "The heuristic is the environment of the search and is explored like a scheduler: a scripted Heuristic::Custom offers (undecided statement x {T,F}); every choice sequence (all of A(1), A(2), F(3,1); all with <= 2 deviations on F(3,2) and F(4,1); thorough: all of F(3,2) and a residue class of A(3), <= 3 deviations on F(4,1), <= 1 on A(3)) is executed on a fresh object in both modes and compared with the definition; termination through the cfg(adf_obdd_verif) step budget; channel closed after return. Built-in heuristics through all three entry points on native and hybrid objects over complete families incl. ring ADFs with 6-8 statements; bounded(0/1/2) result channels with a late consumer; Rand with the first seed of every RNG outcome-class prefix; CLI --stmng/--twoval x every --heu value.",
      ORACLE + " Termination = step budget of 20000 loop iterations (largest observed value is in the evidence). Rand is covered by outcome-class prefixes, not by all seeds.", "DESIGN.md 4 C05")
 prop("C06", "explicit-state breadth-first search over the real diagram store (state restored by history replay), invariants in every state",
-     "All operation sequences (variable, not, and/or/imp/iff/xor over all handle pairs, restrict, re-import through node list and through serde+fix_import) up to depth 6 on 2 variables and depth 5 on 3 variables (thorough: 7/6 and 4 variables), from the empty store and from the stores built for every ADF of A(2) and F(3,1) (native and bridged); in every state: constants at 0/1, every node reduced, ordered and unique, all handles pairwise different functions, results are the unique handle of their function, re-imports reproduce the table.",
+     "All operation sequences (variable, not, and/or/imp/iff/xor over all handle pairs, restrict, re-import through node list and through serde+fix_import) up to depth 6 on 2 variables and depth 5 on 3 variables (thorough: 7/6 and 4 variables), from the empty store and from the stores built for every ADF of A(2) and F(3,1) (native and bridged); states keyed by node table + unique table; in every state: constants at 0/1, every node reduced, ordered and unique, unique table = inverse of the node vector, all handles pairwise different functions, every operation returns the unique handle of ITS function, re-imports reproduce the table.",
      STORE, "DESIGN.md 4 C06")
 prop("C07", "explicit-state search over the real diagram store; every transition compared with the reference operation on truth tables; flat cold-cache sweep of all operand pairs",
      "Same exploration; per transition the returned handle's truth table equals the reference operation on the operands' tables (restriction = cofactor), the node table only grows and old handles keep their function; warm and cold memo tables (every (state, operation) pair, operations re-executed from memo-warm variants). Plus all 256x256 operand pairs over 3 variables x 5 connectives, negation and all restrictions on fresh stores.",
@@ -45,7 +45,7 @@ prop("C10", "metamorphic exploration: exhaustive enumeration of presentations (f
      "A(2) x all 24 fact orders x 3 sortings x 6 renamings x 2 layouts; F(3,1) x all 720 orders; F(3,2) x fixed orders; large ADFs x 14 orders x 3 sortings; native, biodivine, hybrid. Grounded and the multisets of complete / stable / two-valued models as maps label -> T/F/u equal the definition (small) or the first presentation (large); after varsort_lexi labels are byte-wise sorted and the dictionary agrees.",
      ORACLE + " Large instances: complete models only when <= 5 statements stay undecided, stable/two-valued when <= 9.", "DESIGN.md 4 C10")
 prop("C11", "explicit-state search over the store with a memo-table audit on every transition + enumeration of ALL public call sequences up to length 3 on one Adf object, each replayed twice",
-     "Store: every ite/restrict memo entry, variable list and cached count is recomputed from the node table on every transition of the breadth-first search (depth 6 / 5; a second search keyed by node table + memo tables). ADF objects: for every ADF of A(2) and F(3,1), every sequence over a 15-call alphabet (all semantics, counting, nogood search with four heuristics incl. seeded Rand, formula building, restriction) up to length 3 (bridged: 2; thorough 4/3): last answer = fresh object's answer, earlier answers still read the same, memo tables right, and a second run on a fresh object reproduces raw answers and node table.",
+     "Store: every ite/restrict memo entry, variable list and cached count is recomputed from the node table on every transition of the breadth-first search (depth 6 / 5; a second search keyed by node table + memo tables). ADF objects: for every ADF of A(2) and F(3,1), every sequence over a 15-call alphabet (all semantics, counting, nogood search with four heuristics incl. seeded Rand, formula building, restriction) up to length 3 (bridged: 2; a class of F(3,2): 2; thorough 4/3): last answer = fresh object's answer, earlier answers still read the same, memo tables right, and a second run on a fresh object reproduces raw answers and node table.",
      STORE + " Model lists are compared with the fresh object's as multisets; order only for the determinism clause.", "DESIGN.md 4 C11")
 prop("C12", "the same exhaustive battery compiled and run under every cargo feature combination, each against the definitional oracle",
      "The harness is built against the library under default + 4 corner feature sets (thorough: all 12); each build runs all semantics on A(2), F(3,1) and a residue class of F(3,2), every query on every node of every function of <= 3 variables (4: strided), each query also as the first query on a never-counted and a freshly restricted diagram, a store exploration with all invariants incl. serde re-import, persistence round trips and all call histories of length <= 2 on A(2). No build may deviate from the oracle; case counts must agree; the documented memoised-model-count exception is masked by name.",
@@ -72,10 +72,10 @@ prop("C20", "exhaustive enumeration of all interpretation vectors up to length 7
 SRV = "Trusted: the in-harness MongoDB stub's semantics for the six commands the server uses (equality filters, $set with dotted paths, replacement keeping _id, unique index on insert and update, n/nModified) - the environment model; the Python copy of the definitional oracle (srvmc/harness.py). Timing (the 120 s compute time-out) and memory-level races inside one handler are not explored."
 
 prop("C16", "explicit-state search on the real server binary over a MongoDB wire-protocol stub that captures the background result writes as explicit events",
-     "Every ADF of A(1) and A(2) (thorough: + F(3,1)) x both parsing strategies is submitted over HTTP; six strategies in rotated order with GETs after the computation ended but before its result is stored and after; for 8 codes (thorough: all of A(2)) a breadth-first search over the whole lattice of solved-strategy subsets (64 states / 192 transitions each, restored from database snapshots); every stored result = definitional answer as multiset; every graph: node set = closure of the roots, one lo/hi edge per decision node, walking from the root label of s under every assignment consistent with the shown model evaluates s's condition; unparseable and ill-formed codes end as Error and are never solved; running_tasks empty whenever every task has ended. 21k requests in the quick tier.",
+     "Every ADF of A(1) and A(2) (thorough: + F(3,1)) x both parsing strategies is submitted over HTTP; six strategies in rotated order with GETs after the computation ended but before its result is stored and after; for 8 codes (thorough: all of A(2)) a breadth-first search over the whole lattice of solved-strategy subsets (64 states / 192 transitions each, restored from database snapshots); every stored result = definitional answer as multiset; every graph: node set = closure of the roots, one lo/hi edge per decision node, walking from the root label of s under every assignment consistent with the shown model evaluates s's condition; unparseable and ill-formed codes end as Error and are never solved; running_tasks empty whenever every task has ended; label-variety and 12-statement codes; a second user asking while a long computation runs must not see that task. 22k requests in the quick tier.",
      SRV, "DESIGN.md 4 C16", engine="srvmc")
 prop("C17", "explicit-state BFS over request histories of two clients (snapshot/restore, deferrable background writes) + controlled-scheduler exploration of all database-command interleavings of concurrent requests, on the real server binary",
-     "E1: breadth-first search to depth 3 from the empty service and depth 2-3 from three seeds over an alphabet of 29 requests per client (register/login/update incl. the other's and a shared name, logout, info, delete-account, add with and without session, solve, get, list, delete, unauthenticated variants) plus 'apply pending background write'; E2: for 140 (request, request sequence) pairs every interleaving of their database commands with <= 1 preemption (thorough 3), each replayed from a seed snapshot under a scheduler that parks every command. After every transition: no foreign marker in a response, foreign documents byte-identical, unauthenticated requests refused, login succeeds iff the password is the one last set, credentials are salted argon2 hashes and never plaintext, account names unique, and alone-equivalence (differential: the client's projected history re-executed alone, memoised).",
+     "E1: breadth-first search to depth 3 from the empty service and depth 2-3 from four seeds over an alphabet of 33 requests per client (register/login/update incl. the other's and a shared name, logout, info, delete-account, add with and without session, solve, get, list, delete, unauthenticated variants) plus 'apply pending background write'; E2: for 140 (request, request sequence) pairs every interleaving of their database commands with <= 1 preemption (thorough 3), each replayed from a seed snapshot under a scheduler that parks every command. After every transition: no foreign marker in a response, foreign documents byte-identical, unauthenticated requests refused, login succeeds iff the password is the one last set, credentials are salted argon2 hashes and never plaintext, account names unique, and alone-equivalence (differential: the client's projected history re-executed alone, memoised). E3: the other client asks while a long computation runs (window observed through the stub).",
      SRV + " Clients never share passwords, so every cross-account access is illegitimate. Known finding K1 (mutable account name as key) is matched on the hand-over pattern in the history, not on the clause.", "DESIGN.md 4 C17", engine="srvmc")
 
 
